@@ -30,12 +30,44 @@ class Tables:
             if k not in seen:
                 seen.add(k)
                 uniq.append(s)
-        pats = [None] * len(uniq)
+        pats = [set_pattern(u) for u in uniq]
         a = native.one({"cmd": "alphabet", "sets": uniq, "patterns": pats})
+        self.alpha_xcheck = {"mismatches": a["mismatches"], "checked": a["checked"]}
         self.alpha = Alphabet(uniq, a["reps"], a["matrix"], a["class_sizes"])
         self.alpha_info = {"classes": len(a["reps"]), "sets": len(uniq), "unicode": self.dump["unicode"], "python": self.dump["python"]}
         self.ref_trees = dict(zip(ref_pats, ref_trees))
         self.lex_ref = lex_ref
+
+
+_CATS = {"CATEGORY_SPACE": r"\s", "CATEGORY_NOT_SPACE": r"\S", "CATEGORY_DIGIT": r"\d", "CATEGORY_NOT_DIGIT": r"\D",
+         "CATEGORY_WORD": r"\w", "CATEGORY_NOT_WORD": r"\W"}
+
+
+def set_pattern(spec):
+    """a one-character regex for a set spec, used to cross-check the membership semantics against the real `re`"""
+    import re
+    k = spec[0]
+    if k == "ANY":
+        return "."
+    if k == "LITERAL":
+        return re.escape(chr(spec[1]))
+    if k == "NOT_LITERAL":
+        return "[^%s]" % re.escape(chr(spec[1]))
+    if k == "CATEGORY":
+        return _CATS[spec[1]]
+    if k == "IN":
+        body, neg = "", False
+        for o, a in spec[1]:
+            if o == "NEGATE":
+                neg = True
+            elif o == "LITERAL":
+                body += re.escape(chr(a))
+            elif o == "RANGE":
+                body += "%s-%s" % (re.escape(chr(a[0])), re.escape(chr(a[1])))
+            elif o == "CATEGORY":
+                body += _CATS[a]
+        return "[%s%s]" % ("^" if neg else "", body)
+    return None
 
 
 def P(L, K, al):
